@@ -25,6 +25,12 @@ CLAIMED = {
          "Exploration over lexical variation of the documented syntax (found F05, F06, F07, F08, F10)."),
  'C13': ("tracking tree allocator as model of the caller's heap: per-parse live-block sets, reachability walk, re-walk after yaep_free_grammar, yaep_free_tree accounting, terminal-callback count, library leak accounting through the redirected malloc", "6.C13",
          "Exploration with 1-3 live trees per object, cost pruning, recovery, three allocator modes (found F15, F25, F29)."),
+ 'C14': ("stateful (model-based) testing: generated API histories over 3 object slots; every call compared with a pure model and with the same call on a fresh object in a fresh process; ASan; library memory accounting at the end", "6.C14",
+         "Exploration over histories of 4-40 operations with good, defective and mutated grammars (found F01, F02, F09, F10, F32, F34)."),
+ 'C15': ("stateful testing against a pure model of the documented error-state / token-validation / setter contract", "6.C15",
+         "Exploration with emphasis on undeclared token codes inside and outside the declared range and on getters after failures (found F03, F08, F33)."),
+ 'C16': ("differential testing: the same generated history through the C functions and through class yaep in one process, transcripts compared; long inputs force the C++ containers to grow", "6.C16",
+         "Exploration (found F24). The C side is judged by C01-C15; this check only demands equality."),
  'C08': ("reference minimum over all simple recoveries computed on reference Earley sets", "6.C08", "Exploration; inequality only, as the property states; meaningful together with C07's accounting clause."),
 }
 m={
